@@ -331,7 +331,7 @@ def run(ctx):
     if ctx.tier == 'quick':
         cases = cases_for(170, 1500000, 20, ctx.seed, 5, 8, 3, (10, (2, 3)))
     else:
-        cases = cases_for(320, 20000000, 300, ctx.seed, 6, 12, 4, (14, (2, 3, 4)))
+        cases = cases_for(280, 6000000, 200, ctx.seed, 6, 12, 4, (13, (2, 3, 4)))
     ctx.note('instances', len(cases))
     ctx.note('excluded_from_domain',
              'Color666ToricCode with L_x != L_y (logicals cannot be built) and HollowRhombicCode '
